@@ -10,7 +10,7 @@ EXPLANATION = ('(1) sibling agreement: the progress variants have the same loop 
                'k == total-1 with total the trip count, the reporter leaves its loop when n_finished >= number of channels and counts a chain as finished under stats.n == total; '
                '(5) the two reporter closures (core.rs, nuts.rs) are structurally identical; (6) no dtype-checked TensorData accessor whose element type is not syntactically the '
                'data\'s dtype reaches unwrap/expect. Termination under every interleaving is a liveness property and is NOT decided (the obligations in 4 are necessary, not sufficient).')
-FLOORS = {'obligations': 44}   # counted on the reference tree; fewer instantiated obligations is reported, never passed silently
+FLOORS = {'obligations': 48}   # counted on the reference tree; fewer instantiated obligations is reported, never passed silently
 TECHNIQUE = 'sibling loop-summary agreement, result-discipline and typestate (TensorData dtype) analysis, structural equivalence of the reporter closures'
 SEND = 'std::sync::mpsc::Sender::send'
 
@@ -69,6 +69,13 @@ def core_worker(ctx, nc, nd):
     if r:
         ctx.eq('C10.sib.core.ret', A, 'return', ret, ls.lx[r[1]], why='returns the filled buffer (same as run_chain)', sp=b['sp'])
     send_rules(ctx, 'C10.core', A, ev, ls, b['sp'])
+    ev2 = ctx.evaluate(b, no_inline=('stats::ChainTracker::new', 'stats::ChainTracker::step', 'stats::ChainTracker::stats'), tag='setup')
+    tn = ev2.events(lambda e: e.key == 'stats::ChainTracker::new')
+    cs = T.app('core::MarkovChain::current_state', S('chain'))
+    okt = len(tn) == 1 and tn[0].args[0] is T.app('len', cs) and tn[0].args[1] is cs and not tn[0].loops
+    ctx.check('C10.tracker_ctor.core', A, 'tracker', okt, expected='ChainTracker::new(len(chain.current_state()), chain.current_state()), once, before the loop',
+              found='; '.join('(%s, %s)' % (show(e.args[0])[:80], show(e.args[1])[:80]) for e in tn) or 'no call', sp=b['sp'],
+              why='a tracker built for another length rejects every state (shape check) and the worker returns Err where run_chain succeeds')
 
 
 def nuts_worker(ctx, nc, nd):
@@ -111,6 +118,27 @@ def nuts_worker(ctx, nc, nd):
     # tracker is fed the position after the step (reads only)
     tr = ev.events(lambda e: e.key == 'stats::ChainTracker::step')
     ctx.extra['nuts_tracker_steps'] = len(tr)
+    nuts_worker_setup(ctx, nc, nd, b)
+
+
+def nuts_worker_setup(ctx, nc, nd, b):
+    """warm-up initialisation gets (n_collect, n_discard) in this order (as NUTSChain::run); the tracker is built for the chain's dimension"""
+    A = 'NUTSChain::run_progress'
+    ick = ctx.helper_key('nuts.init_chain', 'nuts::NUTSChain::init_chain')
+    ev = ctx.evaluate(b, no_inline=('nuts::NUTSChain::step', ick, 'stats::ChainTracker::new', 'stats::ChainTracker::step'), tag='setup')
+    ic = ev.events(lambda e: e.key == ick)
+    ctx.check('C10.fwd.nuts_init', A, 'fwd', len(ic) == 1 and ic[0].args[1] is nc and ic[0].args[2] is nd and not ic[0].loops and not ic[0].pc,
+              expected='init_chain(n_collect, n_discard), once, before the loop', found='; '.join('(%s, %s)' % (show(e.args[1]), show(e.args[2])) for e in ic) or 'no call', sp=b['sp'],
+              why='swapped arguments make the progress variant adapt for n_collect iterations (sibling of C09.fwd.nuts_init)')
+    tn = ev.events(lambda e: e.key == 'stats::ChainTracker::new')
+    okt = False
+    found = 'no ChainTracker::new'
+    if len(tn) == 1 and ic:
+        dimv = tn[0].args[0]
+        found = 'ChainTracker::new(%s, ..)' % show(dimv)[:120]
+        okt = dimv is T.proj(ic[0].res, 0) or dimv is index_term(T.app('dims', fld(S('self'), 'position')), N(0))
+    ctx.check('C10.tracker_ctor.nuts', A, 'tracker', okt, expected='ChainTracker::new(dim, position): built for the dimension of the chain', found=found, sp=b['sp'],
+              why='a tracker built for another length rejects every state (shape check) and the worker returns Err where run succeeds')
 
 
 def hmc_progress(ctx, nc, nd):
@@ -149,6 +177,10 @@ def hmc_progress(ctx, nc, nd):
                   T.app('unsqueeze_dim', fld(post, 'positions'), N(0))) for a, d in dims_alts]
     ctx.eq('C10.sib.hmc.row', A, 'row', l2.next[o], exps[0], alts=exps[1:], sp=l2.sp, why='iteration k stores the positions after its step at first-axis index k (as HMC::run)')
     ctx.eq('C10.sib.hmc.permute', A, 'permute', sample, T.app('permute', l2.lx[o], T.app('array', N(1), N(0), N(2))), sp=sp, why='[step, chain, dim] buffer returned as [chain, step, dim] (as HMC::run)')
+    tn = ev.events(lambda e: e.key == 'stats::MultiChainTracker::new')
+    okt = len(tn) == 1 and any(tn[0].args[0] is a and tn[0].args[1] is d for a, d in dims_alts)
+    ctx.check('C10.tracker_ctor.hmc', A, 'tracker', okt, expected='MultiChainTracker::new(n_chains, dim) from the dims of self.positions, in this order', found='; '.join('(%s, %s)' % (show(e.args[0]), show(e.args[1])) for e in tn) or 'no call', sp=sp,
+              why='a tracker built as (dim, n_chains) rejects every state unless n_chains == dim: run_progress fails where run succeeds')
     st = ev.events(lambda e: e.key == 'stats::MultiChainTracker::stats')
     ctx.check('C10.stats_from_returned.hmc', A, 'stats', len(st) == 1 and st[0].args[1] is sample and ret[1][1] is st[0].res or (len(st) == 1 and st[0].args[1] is sample and assume_ok(ret[1][1]) is assume_ok(st[0].res)),
               expected='RunStats computed by tracker.stats(<the returned sample>)', found='%d stats call(s)' % len(st), sp=sp, why='diagnostics must equal those computed from the returned draws')
